@@ -9,6 +9,7 @@
 import Whawty.Gen.CheckFile
 import Whawty.Props.GenGrammar
 import Whawty.Lemmas.StoreInv
+import Whawty.Lemmas.StoreCheck
 namespace Whawty.Gen.Tie
 open Whawty Whawty.Gen
 
@@ -56,17 +57,51 @@ def cfView : Option (Bool × Bytes × Bool) → Bool × Bytes × Bool × Bool
 theorem userNameReMatch_eq (u : Bytes) : userNameReMatch u = Store.validName u := by
   rw [validName_is_source_grammar]; rfl
 
-/- (The script below closes the goal for the `switch` form of the function and for an `if`/`else if`
-   chain with `valid = userNameRe.MatchString(user)`: behaviour-preserving rewrites inside the
-   translated subset keep the tie.) -/
+/-- `strings.HasSuffix(n, ext)` for one of the two extensions says the same as `filepath.Ext(n) == ext`. -/
+theorem hasSuffix_iff_ext (n e : Bytes) (he : e = Store.adminExt ∨ e = Store.userExt) :
+    (e.length ≤ n.length ∧ n.drop (n.length - e.length) = e) ↔ Store.extOf n = e := by
+  constructor
+  · rintro ⟨hl, hd⟩
+    have hn : n = n.take (n.length - e.length) ++ e := by
+      conv => lhs; rw [← List.take_append_drop (n.length - e.length) n]
+      rw [hd]
+    rw [hn]
+    rcases he with rfl | rfl
+    · exact Store.extOf_admin' _
+    · exact Store.extOf_user _
+  · intro h
+    have hne : Store.extOf n ≠ [] := by
+      rw [h]; rcases he with rfl | rfl <;> decide
+    obtain ⟨p, hp⟩ := Store.extOf_suffix n hne
+    rw [h] at hp
+    have hl : n.length = p.length + e.length := by rw [hp]; simp
+    refine ⟨by omega, ?_⟩
+    have : n.length - e.length = p.length := by omega
+    rw [this]
+    conv => lhs; rw [hp]
+    simp
+
+theorem cutSuffix_ext (n e : Bytes) (he : e = Store.adminExt ∨ e = Store.userExt) :
+    cutSuffix n e = if Store.extOf n = e then (n.take (n.length - e.length), true) else (n, false) := by
+  unfold cutSuffix
+  by_cases h : Store.extOf n = e
+  · have := (hasSuffix_iff_ext n e he).mpr h
+    simp [h, this]
+  · have : ¬ (e.length ≤ n.length ∧ n.drop (n.length - e.length) = e) := fun hh => h ((hasSuffix_iff_ext n e he).mp hh)
+    simp only [this, h, if_false]
+/- (The script below closes the goal for the `switch` form of the function, for an `if`/`else if`
+   chain on `filepath.Ext` with `valid = userNameRe.MatchString(user)` (benign M-4) and for the
+   `strings.CutSuffix` form a maintainer-style sub-agent wrote (benign B3-3): behaviour-preserving
+   rewrites inside the translated subset keep the tie.) -/
 theorem checkUserFile_is_source (n : Bytes) (h : (47 : Byte) ∉ n) :
     checkUserFile.map (· n) = some (cfView (Store.checkUserFile n)) := by
   unfold checkUserFile
   simp only [Option.map_some, Option.some.injEq]
-  simp only [pathExt_eq n h, userNameReMatch_eq, Store.checkUserFile]
   have ha : ([46, 97, 100, 109, 105, 110] : Bytes) = Store.adminExt := rfl
   have hu : ([46, 117, 115, 101, 114] : Bytes) = Store.userExt := rfl
-  rw [ha, hu]
+  simp only [ha, hu, pathExt_eq n h, userNameReMatch_eq, Store.checkUserFile,
+    cutSuffix_ext n Store.adminExt (Or.inl rfl), cutSuffix_ext n Store.userExt (Or.inr rfl)]
+  have hd : ¬ Store.userExt = Store.adminExt := by decide
   by_cases h1 : Store.extOf n = Store.adminExt
   · have hne : Store.extOf n ≠ [] := by rw [h1]; decide
     have ht := trimSuffix_ext n hne
@@ -77,9 +112,53 @@ theorem checkUserFile_is_source (n : Bytes) (h : (47 : Byte) ∉ n) :
     · have hne : Store.extOf n ≠ [] := by rw [h2]; decide
       have ht := trimSuffix_ext n hne
       rw [h2] at ht
-      have hd : ¬ Store.userExt = Store.adminExt := by decide
-      simp only [h2, hd, decide_false, decide_true, Bool.false_eq_true, if_false, if_true, ht, cfView]
+      simp only [h1, h2, hd, decide_false, decide_true, Bool.false_eq_true, if_false, if_true, ht, cfView]
       try (cases Store.validName (List.take (n.length - Store.userExt.length) n) <;> simp)
+    · simp [h1, h2, cfView]
+
+
+/-- **What the source's `checkUserFile` accepts**, stated about the translated function itself: for
+    a directory-entry name `n` (no `/`), it reports a valid entry exactly when `n` is
+    `<u>.user` or `<u>.admin` for a name `u` of the user-name grammar — and then it returns that `u`
+    and whether the extension was `.admin`; the error flag is set exactly when the extension is
+    neither. -/
+theorem source_checkUserFile_exact (n : Bytes) (h : (47 : Byte) ∉ n)
+    (f : Bytes → Bool × Bytes × Bool × Bool) (hf : checkUserFile = some f) (u : Bytes) (a : Bool) :
+    f n = (true, u, a, false) ↔ (Store.validName u = true ∧ n = Store.fileName u a) := by
+  have hs := checkUserFile_is_source n h
+  rw [hf] at hs
+  simp only [Option.map_some, Option.some.injEq] at hs
+  rw [hs]
+  constructor
+  · intro hv
+    cases hc : Store.checkUserFile n with
+    | none => simp [hc, cfView] at hv
+    | some r =>
+      obtain ⟨v, u', a'⟩ := r
+      simp only [hc, cfView, Prod.mk.injEq, and_true] at hv
+      obtain ⟨hv1, hv2, hv3⟩ := hv
+      subst hv1; subst hv2; subst hv3
+      have h1 := Store.checkUserFile_valid hc
+      have h2 := Store.checkUserFile_name hc
+      exact ⟨h1.symm, h2⟩
+  · rintro ⟨hv, hn⟩
+    rw [hn, Store.checkUserFile_fileName, hv]
+    rfl
+
+/-- … and it signals an error exactly for names with neither extension. -/
+theorem source_checkUserFile_error (n : Bytes) (h : (47 : Byte) ∉ n)
+    (f : Bytes → Bool × Bytes × Bool × Bool) (hf : checkUserFile = some f) :
+    (f n).2.2.2 = true ↔ (Store.extOf n ≠ Store.adminExt ∧ Store.extOf n ≠ Store.userExt) := by
+  have hs := checkUserFile_is_source n h
+  rw [hf] at hs
+  simp only [Option.map_some, Option.some.injEq] at hs
+  rw [hs]
+  simp only [Store.checkUserFile]
+  by_cases h1 : Store.extOf n = Store.adminExt
+  · simp [h1, cfView]
+  · by_cases h2 : Store.extOf n = Store.userExt
+    · have hd : ¬ Store.userExt = Store.adminExt := by decide
+      simp [h2, hd, cfView]
     · simp [h1, h2, cfView]
 
 /- Non-vacuity: the translation exists and classifies a real entry. -/
